@@ -441,6 +441,7 @@ func (rn *runner) Exec(op string) string {
 //
 //	pd new <nil|qf|rf|mf> <builder spec> <CryptoLengths|-> <maxSize>
 //	pd pack <draws>    one PackCoalescedPacket
+//	pd probe <draws>   one PackPTOProbePacket(Initial, addPingIfEmpty)
 //	pd lose <k>        the k-th packed packet is declared lost (OnLost of every registered frame)
 //	pd write <lo> <n>  more handshake data on the Initial stream
 func (rn *runner) execPD(f []string) string {
@@ -473,13 +474,17 @@ func (rn *runner) execPD(f []string) string {
 		return "skip"
 	}
 	switch f[1] {
-	case "pack":
+	case "pack", "probe": // probe: PackPTOProbePacket(Initial) instead of PackCoalescedPacket
 		if len(f) < 3 {
 			return "bad-op"
 		}
 		var res string
 		withDraws(f[2], func() {
-			payload, reg, packed, err := rn.pd.Pack()
+			call := rn.pd.Pack
+			if f[1] == "probe" {
+				call = rn.pd.Probe
+			}
+			payload, reg, packed, err := call()
 			if err != nil {
 				rn.pd = nil // PackCoalescedPacket failed: the connection is closed
 				res = errName(err)
@@ -1692,7 +1697,18 @@ func (rn *runner) genDatagramScenario(r *vh.Rand) {
 	default:
 		pack(k + 1)
 	}
+	probe := func() {
+		q = append(q, "pd probe "+draws())
+		alive = append(alive, packed)
+		packed++
+	}
 	for round := 0; round < 2; round++ {
+		if r.Chance(25) { // the PTO fires: the oldest outstanding datagram is re-queued and a probe packet is packed
+			if r.Chance(70) {
+				loseIdx(0)
+			}
+			probe()
+		}
 		pack(1 + r.Intn(3))
 		switch r.Pick(40, 25, 20, 15) {
 		case 0:
@@ -1708,6 +1724,9 @@ func (rn *runner) genDatagramScenario(r *vh.Rand) {
 		}
 	}
 	pack(k + 3) // until nothing is left to send
+	if r.Chance(30) {
+		probe() // a PTO with nothing to send: the probe is built from an empty CRYPTO share
+	}
 	rn.queue = append(rn.queue, q...)
 }
 
